@@ -290,6 +290,9 @@ def main():
     if not os.environ.get('VERIF_NO_EVIDENCE'):
         os.makedirs(os.path.join(VERIF, 'evidence'), exist_ok=True)
         json.dump(ev, open(os.path.join(VERIF, 'evidence', prop + '.json'), 'w'), indent=1)
+        if tier == 'thorough':   # evidence/<id>.json is rewritten by every run; the last thorough run is kept as well
+            os.makedirs(os.path.join(VERIF, 'evidence_thorough'), exist_ok=True)
+            json.dump(ev, open(os.path.join(VERIF, 'evidence_thorough', prop + '.json'), 'w'), indent=1)
     for l in lines:
         print(l)
     print('%s %s: executions=%d outcomes=%d nontrivial=%d signatures=%d unlisted=%d known=%d build=%.0fs total=%.0fs exhaustive=%s' % (
